@@ -116,9 +116,16 @@ Section Scatter.
                  (peer_choices engine_ok g a p)
     end.
 
-  (* selectAvailableLeaderStores: any target store without an engine label that has the least leader count; 0 if none *)
+  (* selectAvailableLeaderStores: any target store without an engine label and whose labels do not reject leaders that has
+     the least leader count; if every such store rejects leaders, any target store without an engine label; 0 if none.
+     (The reject-leader exclusion is the fix "region scatter must not move the leader to a store that rejects leaders".) *)
+  Definition ordinary_targets (targets : list (Z * role)) : list Z :=
+    filter (fun s => match find_store stores s with Some st => lv_empty (engine_of st) | None => false end) (map fst targets).
+  Definition accepting (l : list Z) : list Z :=
+    filter (fun s => match find_store stores s with Some st => negb (s_reject st) | None => false end) l.
   Definition leader_choices (ldr : gdist) (targets : list (Z * role)) : list Z :=
-    let cands := filter (fun s => match find_store stores s with Some st => lv_empty (engine_of st) | None => false end) (map fst targets) in
+    let ord := ordinary_targets targets in
+    let cands := match accepting ord with [] => ord | acc => acc end in
     match cands with
     | [] => [0]
     | _ => let m := min_count (get ldr grp) cands in filter (fun c => get ldr grp c =? m) cands
@@ -359,6 +366,8 @@ Definition sched_name (k : sched) : string :=
   | SScatterConc => "scatter-concurrent"
   end.
 
+Definition is_scatter (k : sched) : bool := match k with SScatter | SScatterConc => true | _ => false end.
+
 Definition monitor (c : case) : option string :=
   match c_op c with
   | None => None
@@ -383,6 +392,10 @@ Definition monitor (c : case) : option string :=
                   && negb (match peer_on a (rs_leader fin) with Some p => match p_role p with Voter => true | _ => false end | None => false end)
           then Some (pre ++ "leader-on-non-voter")
           else if negb (rs_leader fin =? rs_leader s0) && negb (store_is (c_stores c) (fun s => negb (s_reject s)) (rs_leader fin))
+                  && (negb (is_scatter (c_sched c))
+                      (* scatter may have no choice: only when some voter of the result sits on an ordinary store that accepts leaders *)
+                      || existsb (fun p => negb (is_learner p)
+                                           && store_is (c_stores c) (fun s => lv_empty (engine_of s) && negb (s_reject s)) (p_store p)) a)
           then Some (pre ++ "leader-to-store-rejecting-leaders")
           else None
       end
